@@ -40,13 +40,19 @@ def main():
                 if pm and (pm.group(1) == m.group(1) or pm.group(1) + "_test" == m.group(1)):
                     demo_pkg = t
                     break
-        demo_pkg = demo_pkg or touched[0]
+        demo_pkg = os.environ.get("SEED_DEMO_PKG") or demo_pkg
+        if not demo_pkg:
+            # the notes usually say where the demonstration goes
+            notes = os.path.join(sdir, "notes.md")
+            nm = re.search(r"`((?:pkg|tools)/[\w/]+)/zz_seed\w*_test\.go`", open(notes).read()) if os.path.exists(notes) else None
+            demo_pkg = nm.group(1) if nm else touched[0]
 
     def run_demo():
         dst = os.path.join(wt, demo_pkg, "zz_seed_test.go")
         shutil.copy(demo, dst)
         try:
-            rc, out = sh([GO, "test", "-vet=off", "-count=1", "-run", "Seed", "-timeout", "300s",
+            tags = ["-tags", os.environ["SEED_DEMO_TAGS"]] if os.environ.get("SEED_DEMO_TAGS") else []
+            rc, out = sh([GO, "test"] + tags + ["-vet=off", "-count=1", "-run", "Seed", "-timeout", "300s",
                           "./" + demo_pkg], cwd=wt)
         finally:
             os.remove(dst)
@@ -65,6 +71,8 @@ def main():
         rc, out = sh([GO, "build", "./pkg/..."], cwd=wt)
         meta["steps"]["build"] = rc
         rc, out = sh([GO, "test", "-vet=off", "-count=1"] + pkgs, cwd=wt)
+        if rc != 0:  # timing-sensitive suites are flaky on a loaded machine: one retry
+            rc, out = sh([GO, "test", "-vet=off", "-count=1"] + pkgs, cwd=wt)
         meta["steps"]["package_tests"] = dict(rc=rc, tail=out[-600:])
         if demo_pkg:
             rc, out = run_demo()
